@@ -171,6 +171,80 @@ def check_attach(P, ctx):
               ['also initialised in: %s' % ', '.join(others)] if others else None)
 
 
+def check_foreign_objects(P, ctx):
+    """a thread's collector finalises only what is in its own registry: a deletion of a pointer it does not hold (an object of another
+    thread's collector, handed over through shared memory) must leave it alone — evaluated on small registries (gcmodel)"""
+    from . import gcmodel
+    rule = 'C13.foreign-objects-untouched'
+    res = gcmodel.eval_registry(P)
+    fn = P.fn('GC_Rem_Ptr')
+    ctx.fn(fn)
+    out = res['unregistered_rem']
+    if res['unsup'].get('rem') and not out:
+        ctx.undecided(rule, 'GC_Rem_Ptr', site(fn), 'leaves the evaluated fragment: ' + res['unsup']['rem'])
+    else:
+        ctx.check(out <= {'nothing'}, rule, 'GC_Rem_Ptr', site(fn), 'removing a pointer that is not in the calling thread\'s registry finalises nothing and changes nothing',
+                  ['outcome: %s' % ', '.join(sorted(out))] if not out <= {'nothing'} else None)
+    ctx.floor(rule, 1)
+
+
+def eval_thread_assign(P):
+    """Thread's assign (the path copy(thread) takes), evaluated for a target with and without a table of its own.
+    -> (problem with sharing, problem with the table's allocation class, unsupported)"""
+    from . import cint
+    fn = P.fn(P.slot('Thread', 'Assign', 'assign'))
+    OWN, SRC, NEWT = 6000, 6100, 6200
+    shared, klass, unsup = None, None, None
+    for own in (0, OWN):
+        atoms = {('global', 'NULL'): 0, ('elem', 't', 0, 'tls'): own, ('elem', 'o', 0, 'tls'): SRC, ('elem', 't', 0, 'func'): 1, ('elem', 'o', 0, 'func'): 2}
+        ev_ = []
+
+        def call(nm, e, it):
+            if nm == 'cast':
+                return it.ev(e[2][0])
+            if nm in ('alloc_raw', 'new_raw_with'):
+                ev_.append(('raw',))
+                return NEWT
+            if nm in ('alloc', 'new_with', 'alloc_root', 'new_root_with'):
+                ev_.append(('managed', nm))
+                return NEWT
+            if nm == 'assign':
+                ev_.append(('assign', it.ev(e[2][0]), it.ev(e[2][1])))
+                return it.ev(e[2][0])
+            if nm in ('del_raw', 'del', 'dealloc_raw'):
+                ev_.append(('del', it.ev(e[2][0])))
+                return 0
+            raise cint.NoEval('call %s' % nm)
+        it = cint.CInt(P, fn, atoms=atoms, call=call, recurse=False, strict=True)
+        it.atoms = atoms
+        r = it.run([('ep', 't', 0), ('ep', 'o', 0)])
+        lab = 'target %s a table of its own' % ('with' if own else 'without')
+        if r[0] != 'ret':
+            unsup = unsup or '%s: %s' % (lab, r[1])
+            continue
+        tls = atoms[('elem', 't', 0, 'tls')]
+        if tls in (SRC, 0):
+            shared = shared or '%s: afterwards its table is %s' % (lab, 'the source thread\'s own table (the two threads share their thread-local storage, collector and exception record entries included)' if tls == SRC else 'missing')
+        elif ('assign', tls, SRC) not in ev_:
+            shared = shared or '%s: its table is not filled from the source\'s' % lab
+        if any(x[0] == 'managed' for x in ev_):
+            klass = klass or '%s: the table is created with %s: it is registered with the collector, while the Thread marks only its contents and releases it with del_raw' % (lab, [x[1] for x in ev_ if x[0] == 'managed'][0])
+    return shared, klass, unsup
+
+
+def check_thread_assign(P, ctx, rule='C13.own-singletons', which='shared'):
+    shared, klass, unsup = eval_thread_assign(P)
+    fn = P.fn(P.slot('Thread', 'Assign', 'assign'))
+    ctx.fn(fn)
+    bad = shared if which == 'shared' else klass
+    if unsup and not bad:
+        ctx.undecided(rule, 'Thread_Assign', site(fn), 'leaves the evaluated fragment: ' + unsup)
+    elif which == 'shared':
+        ctx.check(bad is None, rule, 'Thread_Assign', site(fn), 'a Thread that is assigned (copied) gets a thread-local table of its own, filled from the source\'s', [bad] if bad else None)
+    else:
+        ctx.check(bad is None, rule, 'Thread_Assign', site(fn), 'the table a copied Thread gets is allocated raw, as the constructor\'s is: the destructor releases it with del_raw and the collector never sees it', [bad] if bad else None)
+
+
 def check_call_join(P, ctx):
     rule = 'C13.primitives'
     fn = P.fn(P.slot('Thread', 'Call', 'call_with'))
@@ -297,6 +371,8 @@ def run(ctx, load):
     check_thread_run(P, ctx)
     check_call_join(P, ctx)
     check_attach(P, ctx)
+    check_thread_assign(P, ctx)
+    check_foreign_objects(P, ctx)
     check_with_locks(P, ctx)
 
 
